@@ -1,2 +1,2 @@
 import ScVerif.C07.Drv
-def main : IO Unit := ScVerif.Line.runDriver ScVerif.C07.handle
+def main : IO Unit := ScVerif.Line.runDriverS ScVerif.C07.DrvState.start ScVerif.C07.handle
